@@ -94,6 +94,7 @@ func ruleS2(c *Ctx, id string) {
 	R.Analysed[FuncName(doCreate)] = true
 	R.Analysed[FuncName(doRemove)] = true
 	R.Analysed[FuncName(ren)] = true
+	createUnwindBad, createExplored := "", false
 	// (a) doCreate: the store err = NFS3_OK (success) is dominated by AddName(dip, op, ip.Inum, name) == true
 	adds := P.CallsIn(doCreate, funcIs(addName))
 	R.Check(len(adds) == 1, id, "nfs.doCreate|one AddName", P.Pos(doCreate.Pos()), "doCreate adds exactly one name", "one call", fmt.Sprintf("%d AddName calls", len(adds)))
@@ -110,25 +111,45 @@ func ruleS2(c *Ctx, id string) {
 			}
 		}
 		R.Check(fromAlloc, id, "nfs.doCreate|names the allocated inode", P.Pos(ac.Pos()), "the number entered in the directory is the Inum of the inode just allocated", "value flow from getAlloc", "the directory entry names another inode than the one created")
-		// success = a return whose status result may be NFS3_OK
+		// success = a return whose status result may be NFS3_OK: explored path by path (the status may live in
+		// a cell that local closures assign)
 		tEdge := boolEdge(doCreate, ac, true)
-		var tBlk *ssa.BasicBlock
-		for _, pb := range doCreate.Blocks {
-			for _, s := range pb.Succs {
-				if tEdge(pb, s) && len(s.Preds) == 1 {
-					tBlk = s
+		px := NewPX()
+		px.OnEdge = func(st *PXState, from, to *ssa.BasicBlock) {
+			if from.Parent() == doCreate && tEdge(from, to) {
+				st.Flags["added"] = true
+			}
+		}
+		px.OnCall = func(st *PXState, call ssa.CallInstruction) {
+			if call.Common().StaticCallee() == doDec {
+				st.Flags["dec"] = true
+			}
+		}
+		nOK, badAdd := 0, ""
+		px.OnReturn = func(st *PXState, fr *pxFrame, r *ssa.Return) {
+			for _, res := range r.Results {
+				if !isNamedStatus(res.Type()) {
+					continue
+				}
+				v := px.Eval(fr, st, res)
+				if v.MayBeZero() {
+					nOK++
+					if !st.Flags["added"] {
+						badAdd = P.Pos(r.Pos())
+					}
+					if st.Flags["dec"] {
+						createUnwindBad = P.Pos(r.Pos())
+					}
 				}
 			}
 		}
-		okAll := tBlk != nil
-		nOK := 0
-		for _, blk := range okSources(doCreate) {
-			nOK++
-			if tBlk == nil || !tBlk.Dominates(blk) {
-				okAll = false
-			}
+		px.Run(doCreate)
+		createExplored = !px.Exceeded
+		if px.Exceeded {
+			R.Undecided(id, "nfs.doCreate|success only after AddName", P.Pos(ac.Pos()), "the paths of doCreate can be enumerated", "path budget exceeded")
+		} else {
+			R.Check(badAdd == "" && nOK > 0, id, "nfs.doCreate|success only after AddName", P.Pos(ac.Pos()), "a return with status NFS3_OK is reached only under AddName(...) == true", fmt.Sprintf("every path that may report success (%d) took the true edge", nOK), "a create can succeed without a directory entry (return at "+badAdd+"): an allocated inode that no name reaches")
 		}
-		R.Check(okAll && nOK > 0, id, "nfs.doCreate|success only after AddName", P.Pos(ac.Pos()), "a return with status NFS3_OK is reached only under AddName(...) == true", "dominated by the true edge", "a create can succeed without a directory entry: an allocated inode that no name reaches")
 	}
 	// (b) doRemove: RemName true => doDecLink(op, inodes[0]) with inodes from getInodesLocked(dfh, name)
 	for _, rc := range P.CallsIn(doRemove, funcIs(remName)) {
@@ -208,27 +229,11 @@ func ruleS2(c *Ctx, id string) {
 			continue
 		}
 		fn := cs.Caller
-		key := FuncName(fn) + "|doDecLink justified"
-		switch fn {
+		key := FuncName(ownerOf(fn)) + "|doDecLink justified"
+		switch ownerOf(fn) {
 		case doCreate:
-			// unwind: every return reachable after it carries a constant error status
-			okU := true
-			for _, b := range fn.Blocks {
-				r, isR := b.Instrs[len(b.Instrs)-1].(*ssa.Return)
-				if !isR || !reachableFrom(cs.Instr, r) {
-					continue
-				}
-				isErr := false
-				for _, res := range r.Results {
-					if k, isk := constInt(res); isk && k != 0 && isNamedStatus(res.Type()) {
-						isErr = true
-					}
-				}
-				if !isErr {
-					okU = false
-				}
-			}
-			R.Check(okU, id, key+"|unwind", P.Pos(cs.Instr.Pos()), "in doCreate the unlink is an unwind: every path after it reports an error", "error status follows", "a created inode is unlinked on a path that reports success")
+			// unwind: every path on which the unlink ran reports an error (path exploration of (a))
+			R.Check(createExplored && createUnwindBad == "", id, key+"|unwind", P.Pos(cs.Instr.Pos()), "in doCreate the unlink is an unwind: every path after it reports an error", "error status follows on every explored path", "a created inode is unlinked on a path that may report success (return at "+createUnwindBad+")")
 		default:
 			R.Check(MustBefore(fn, callTo(remName))(cs.Instr), id, key, P.Pos(cs.Instr.Pos()), "an inode is unlinked only after a name of it was removed in the same function", "RemName precedes on every path", "link count dropped without removing a name: a name pointing to a freed inode")
 		}
@@ -368,11 +373,17 @@ func ruleS4(c *Ctx, id string) {
 	if isEmpty == nil || remName == nil || doRemove == nil || ren == nil {
 		return
 	}
-	check := func(fn *ssa.Function, call ssa.Instruction, obj func(ssa.Value) bool, key string) {
+	// the edges of fn (seen under sub) on which the object is known not to be a directory, or to be empty; the test
+	// may be made by a private helper whose answer (status OK / true) fn branches on
+	var edgesFor func(fn *ssa.Function, sub Subst, obj func(ssa.Value) bool, depth int) []func(from, to *ssa.BasicBlock) bool
+	edgesFor = func(fn *ssa.Function, sub Subst, obj func(ssa.Value) bool, depth int) []func(from, to *ssa.BasicBlock) bool {
 		notDir := condEdge(fn, func(cd Cond) (bool, bool) {
-			n, fl, base, _ := loadedField(cd.X)
+			if cd.X == nil || cd.Y == nil {
+				return false, false
+			}
+			n, fl, base, _ := loadedFieldS(cd.X, sub)
 			k, isk := constInt(cd.Y)
-			if n == V.Inode && fl == "Kind" && obj(base) && isk && k == 2 {
+			if n == V.Inode && fl == "Kind" && base != nil && obj(sub.resolve(stripConv(base))) && isk && k == 2 {
 				if cd.Op == token.EQL {
 					return true, false
 				}
@@ -387,12 +398,21 @@ func ruleS4(c *Ctx, id string) {
 				return false, false
 			}
 			ec, ok := cd.X.(*ssa.Call)
-			if ok && ec.Call.StaticCallee() == isEmpty && obj(stripConv(ec.Call.Args[0])) {
+			if ok && ec.Call.StaticCallee() == isEmpty && obj(sub.resolve(stripConv(ec.Call.Args[0]))) {
 				return true, true
 			}
 			return false, false
 		})
-		R.Check(everyPathTakes(fn, call.Block(), notDir, empty), id, key, P.Pos(call.Pos()), "every path to the removal passes Kind != NF3DIR of the object, or IsDirEmpty(object) == true", "no path avoids both edges", "a non-empty directory can be unlinked (through REMOVE, or RENAME over it): its whole subtree is orphaned")
+		out := []func(from, to *ssa.BasicBlock) bool{notDir, empty}
+		if depth < 2 {
+			out = append(out, helperClassEdge(fn, sub, func(h *ssa.Function, hs Subst, ret *ssa.BasicBlock) bool {
+				return everyPathTakes(h, ret, edgesFor(h, hs, obj, depth+1)...)
+			}))
+		}
+		return out
+	}
+	check := func(fn *ssa.Function, call ssa.Instruction, obj func(ssa.Value) bool, key string) {
+		R.Check(everyPathTakes(fn, call.Block(), edgesFor(fn, Subst{}, obj, 0)...), id, key, P.Pos(call.Pos()), "every path to the removal passes Kind != NF3DIR of the object, or IsDirEmpty(object) == true", "no path avoids both edges", "a non-empty directory can be unlinked (through REMOVE, or RENAME over it): its whole subtree is orphaned")
 	}
 	// IsDirEmpty looks at every entry after "." and "..": its scan starts at 2*DIRENTSZ and advances by DIRENTSZ
 	{
@@ -578,7 +598,39 @@ func okEdges(fn *ssa.Function) []okEdge {
 			}
 			return
 		}
-		// unknown value: may be OK unless this point is dominated by v != NFS3_OK
+		// unknown value: may be OK unless this point is dominated by v != NFS3_OK ...
+		notOK := func(cd Cond) (bool, bool) {
+			if cd.X == nil || cd.Y == nil || stripConv(cd.X) != stripConv(v) {
+				return false, false
+			}
+			if k, isk := constInt(cd.Y); !isk || k != 0 {
+				return false, false
+			}
+			if cd.Op == token.NEQ {
+				return true, true
+			}
+			if cd.Op == token.EQL {
+				return true, false
+			}
+			return false, false
+		}
+		// ... or the edge itself is the "v != NFS3_OK" side of the test that ends its block
+		if e.From != e.To {
+			for _, br := range branches(fn) {
+				if br.Block != e.From {
+					continue
+				}
+				if ok, pol := notOK(br.Cond); ok {
+					succ := br.False
+					if pol {
+						succ = br.True
+					}
+					if succ == e.To && br.True != br.False {
+						return
+					}
+				}
+			}
+		}
 		if guardedBy(fn, e.From, func(cd Cond) (bool, bool) {
 			if cd.X == nil || cd.Y == nil || stripConv(cd.X) != stripConv(v) {
 				return false, false
@@ -608,4 +660,85 @@ func okEdges(fn *ssa.Function) []okEdge {
 		}
 	}
 	return out
+}
+
+// helperClassEdge: the edges of fn on which the answer of a private helper is
+// "fine" (status NFS3_OK, or true), provided ok holds for every return of the
+// helper that gives that answer (ok is told the helper, the substitution of its
+// parameters and the block of the return).
+func helperClassEdge(fn *ssa.Function, sub Subst, ok func(h *ssa.Function, hs Subst, ret *ssa.BasicBlock) bool) func(from, to *ssa.BasicBlock) bool {
+	type edge struct{ f, t *ssa.BasicBlock }
+	set := map[edge]bool{}
+	tupleOf := func(v ssa.Value) (*ssa.Call, int) {
+		v = stripConv(v)
+		if ex, isE := v.(*ssa.Extract); isE {
+			if c, isC := ex.Tuple.(*ssa.Call); isC {
+				return c, ex.Index
+			}
+			return nil, 0
+		}
+		c, _ := v.(*ssa.Call)
+		return c, 0
+	}
+	for _, br := range branches(fn) {
+		var call *ssa.Call
+		idx, class := 0, 0
+		var succ *ssa.BasicBlock
+		switch {
+		case br.Cond.Op == token.ILLEGAL:
+			call, idx = tupleOf(br.Cond.X)
+			class, succ = 1, br.True
+		case br.Cond.Op == token.EQL || br.Cond.Op == token.NEQ:
+			c, i := tupleOf(br.Cond.X)
+			k, isk := constInt(br.Cond.Y)
+			if c != nil && isk && k == 0 && isNamedStatus(stripConv(br.Cond.X).Type()) {
+				call, idx, class = c, i, 2
+				succ = br.True
+				if br.Cond.Op == token.NEQ {
+					succ = br.False
+				}
+			}
+		}
+		if call == nil || br.True == br.False {
+			continue
+		}
+		h := call.Call.StaticCallee()
+		if h == nil || !IsRepoFunc(h) || h.Blocks == nil || h == fn || !(isPrivateHelper(h) || h.Parent() != nil) {
+			continue
+		}
+		hs := Subst{}
+		for k, v := range sub {
+			hs[k] = v
+		}
+		for i, p := range h.Params {
+			if i < len(call.Call.Args) {
+				hs[p] = sub.resolve(call.Call.Args[i])
+			}
+		}
+		all, n := true, 0
+		for _, b := range h.Blocks {
+			r, isR := b.Instrs[len(b.Instrs)-1].(*ssa.Return)
+			if !isR || idx >= len(r.Results) {
+				continue
+			}
+			res := r.Results[idx]
+			in := true
+			if bv, isb := constBool(res); isb {
+				in = class == 1 && bv
+			} else if k, isk := constInt(res); isk {
+				in = class == 2 && k == 0
+			}
+			if !in {
+				continue
+			}
+			n++
+			if _, isC := res.(*ssa.Const); !isC || !ok(h, hs, b) {
+				all = false
+			}
+		}
+		if all && n > 0 {
+			set[edge{br.Block, succ}] = true
+		}
+	}
+	return func(from, to *ssa.BasicBlock) bool { return set[edge{from, to}] }
 }
